@@ -773,8 +773,9 @@ except ImportError:  # pragma: no cover - exercised by installs without [http]
 #: dataclasses, ``pa.RecordBatch``, ``pa.Schema``, lists, dicts, enums --
 #: falls back to Arrow, which is what those are for.
 #:
-#: ``float`` accepts ``int`` because msgpack and Arrow both widen it; ``int``
-#: accepts ``bool`` because ``bool`` is a subclass of ``int``.
+#: ``float`` accepts ``int``: Arrow widens it and the decoder does the same
+#: for msgpack's preserved int; ``int`` accepts ``bool`` because ``bool`` is a
+#: subclass of ``int``.
 _COMPACT_TYPES: dict[object, type | tuple[type, ...]] = {
     bytes: (bytes, bytearray, memoryview),
     str: str,
@@ -852,6 +853,12 @@ def _compact_plan(cls: "type[ArrowSerializableDataclass]") -> "_CompactPlan | No
                 transient.append((field_plan.name, field_plan.default, field_plan.default_factory))
                 continue
             inner, _nullable = _is_optional_type(field_plan.unwrapped_type)
+            if get_origin(field_plan.resolved_type) is Annotated or get_origin(inner) is Annotated:
+                # An explicit ArrowType override (float32, int8, ...) makes the Arrow codec
+                # narrow or reject values that msgpack would carry unchanged, so the two
+                # codecs could rebuild different objects. Leave such classes to Arrow.
+                supported = False
+                break
             runtime = _COMPACT_TYPES.get(inner)
             if runtime is None:
                 supported = False
@@ -946,6 +953,9 @@ def deserialize_compact(cls: "type[ArrowSerializableDataclass]", data: bytes) ->
         if field.name not in row:
             continue
         value = row[field.name]
+        if field.exact is float and type(value) is int and float(value) == value:
+            # msgpack preserves an int held by a float field; Arrow widens it to float.
+            value = float(value)
         kwargs[field.name] = (
             value if type(value) is field.exact else cls._convert_value_for_deserialization(value, field.field_type)
         )
